@@ -338,7 +338,7 @@ type c16Mismatch struct {
 }
 
 var c16JournalID = regexp.MustCompile(`^[-+]journal: id=(-?\d+) `)
-var c16FloodMetric = regexp.MustCompile(`^[-+]flood: metric="([^"]*)" `)
+var c16FloodMetric = regexp.MustCompile(`^[-+]flood: metric="([^"]*)"(?:\([a-z]+\))? `)
 
 // c16Classify names the kind of divergence. It never decides WHETHER there is one (that is
 // the dump comparison); it only looks for the two root causes that are known and explains a
